@@ -67,7 +67,7 @@ func main() {
 		"each case = one pool layer (prefetch landmark / no-prefetch landmark / none) x one configuration (store, registry chunk size, prefetch chunk size, prefetch size, async threshold, SyncAdd, LRU) x one scenario (clean / fault / stall / bgfetch, 1-4 concurrent callers, prioritized bursts); "+
 			"non-trivial = at least one strong clause was exercised with something at stake: A with >=1 non-empty prioritized file after a prefetch that fetched something, B on a no-prefetch layer, C with a prefetch size > 0, "+
 			"D reading >=1 non-empty file offline after a background fetch that fetched something, E2 with a Waiter returning while the stall was held; distinct by layer + configuration + scenario",
-		25, 300, body)
+		25, 200, body)
 }
 
 func body(r *vf.Run) {
@@ -89,11 +89,13 @@ func body(r *vf.Run) {
 
 var poolPath string
 
+const nPlain = 18 // pool layers without an explicit root entry; the rest have one
+
 func buildPools(r *vf.Run) ([]*lx.LayerSpec, error) {
 	// 18 layers without an explicit root entry + 6 with one (DESIGN.md section 6: with the db
 	// store such tars make VerifiableReader.Cache fail; they would mask every other clause, so
 	// they get their own share of the cases)
-	a, err := lx.Pool(prng.New(r.Seed).DeriveS("C15-pool"), 18, false)
+	a, err := lx.Pool(prng.New(r.Seed).DeriveS("C15-pool"), nPlain, false)
 	if err != nil {
 		return nil, err
 	}
@@ -125,9 +127,9 @@ func top(r *vf.Run) {
 			bs = append(bs, batch{stage, race, f, t})
 		}
 	}
-	add("l2", false, r.N(60, 1500), r.N(30, 150))
-	add("l2", true, r.N(24, 400), r.N(12, 100))
-	add("l3", false, r.N(4, 40), r.N(4, 40))
+	add("l2", false, r.N(60, 600), r.N(30, 150))
+	add("l2", true, r.N(24, 200), r.N(12, 100))
+	add("l3", false, r.N(4, 30), r.N(4, 30))
 	par := 3
 	if r.Thorough() {
 		par = 4
@@ -228,6 +230,15 @@ func stage(r *vf.Run) {
 			if c == nil {
 				return
 			}
+			tc := time.Now()
+			defer func() {
+				cls := c.cfg.Scenario
+				if c.cfg.Store == "db" && c.ls.HasRoot {
+					cls = "db-root-entry"
+				}
+				r.Count(fmt.Sprintf("wall_ms_%s_race=%v", cls, race), int(time.Since(tc).Milliseconds()))
+				r.Count(fmt.Sprintf("cases_%s_race=%v", cls, race), 1)
+			}()
 			c.run()
 			c.finish()
 		})
@@ -289,7 +300,13 @@ type kase struct {
 
 func newCase(r *vf.Run, idx int, race bool, rng *prng.R) *kase {
 	c := &kase{r: r, idx: idx, race: race, rng: rng, cnt: map[string]int{}}
-	c.li = rng.Intn(len(pool))
+	// 1 case in 12 uses a tar with an explicit root entry (pool indices >= nPlain): with the
+	// db store those only reproduce the known "tree is too deep" defect, at ~10 s per case
+	if rng.Chance(1, 12) && len(pool) > nPlain {
+		c.li = nPlain + rng.Intn(len(pool)-nPlain)
+	} else {
+		c.li = rng.Intn(min(nPlain, len(pool)))
+	}
 	c.ls = pool[c.li]
 	size := int64(len(c.ls.Built.Blob))
 	cfg := caseCfg{
@@ -320,6 +337,14 @@ func newCase(r *vf.Run, idx int, race bool, rng *prng.R) *kase {
 	}
 	if cfg.Scenario == "bgfetch" && rng.Chance(1, 2) {
 		cfg.PrioBursts = rng.Pick(3, 20, 200) // upper bound; the bursts stop when BackgroundFetch returns
+	}
+	if cfg.Probe && c.ls.Landmark == lx.LmPrefetch {
+		// A' is only informative when the http cache cannot serve the head of the blob from
+		// its in-memory LRU / cached descriptors after its files were removed
+		cfg.LRU, cfg.Fds = 1, 1
+		if cfg.BlobChunk > 1000 {
+			cfg.BlobChunk = 256
+		}
 	}
 	if cfg.Scenario == "stall" {
 		// make the stall productive: something must be left to fetch after the resolution
@@ -675,14 +700,17 @@ func (c *kase) prefetchPhase() bool {
 			c.strong = append(c.strong, "C")
 		}
 	case lx.LmPrefetch:
-		// A
-		c.clauseA(len(log), "prefetch-landmark:prioritized-read-hits-registry")
 		if c.cfg.Probe && !c.cfg.HTTPMem && !c.cfg.FSMem {
-			// A': lose the on-disk http cache (a cache may always be lost), read again
+			// A' instead of A (a read under A would itself put the decompressed chunks into
+			// the fs cache and hide what the prefetch did not): lose the on-disk http cache
+			// first (a cache may always be lost), then read
 			n := wipeCacheFiles(filepath.Join(c.root, "httpcache"))
 			c.count("probe_http_files_removed", n)
+			c.step("ProbeHTTPCacheLoss(removed=%d)", n)
 			c.clauseA(len(log), "prefetch-landmark:read-needs-registry-after-http-cache-loss")
-			c.step("ProbeAfterHTTPCacheLoss(removed=%d)", n)
+		} else {
+			// A
+			c.clauseA(len(log), "prefetch-landmark:prioritized-read-hits-registry")
 		}
 	}
 	return true
